@@ -36,7 +36,7 @@ from cassandra.cqltypes import (AsciiType, BytesType, BooleanType,
                                 TupleType, lookup_casstype, SimpleDateType,
                                 TimeType, ByteType, ShortType, DurationType)
 from cassandra.marshal import (int32_pack, int32_unpack, uint16_pack, uint16_unpack,
-                               uint8_pack, int8_unpack, uint64_pack, header_pack,
+                               uint8_pack, int8_unpack, int64_pack, header_pack,
                                v3_header_pack, uint32_pack, uint32_le_unpack, uint32_le_pack)
 from cassandra.policies import ColDesc
 from cassandra import WriteType
@@ -1321,7 +1321,7 @@ def write_uint(f, i):
 
 
 def write_long(f, i):
-    f.write(uint64_pack(i))
+    f.write(int64_pack(i))
 
 
 def read_short(f):
